@@ -514,7 +514,7 @@ class Labeller:
             if name == 'clone' and b.kind == 'SRC':
                 return Lab('NEWCLONE', b.sel, b.origin)
             if fn.attr == '_WBS__clone_tasks' and b.kind == 'SELF':
-                return Lab('MAP')
+                return Lab('CLONES', {'ROOTS'}) if getattr(self, 'clone_tasks_returns', 'map') == 'roots' else Lab('MAP')
             own_cls = isinstance(fn.value, ast.Name) and fn.value.id == self.f.cls
             if (b.kind == 'SELF' or own_cls) and self.f.cls and self.depth < 2 and not e.keywords:
                 h = self.prog.find_method(self.f.cls, name)
@@ -584,8 +584,19 @@ def _dict_source(it: ast.AST):
     return None
 
 
+COPY_WRAPPERS = ("copy.copy($v)", "copy.deepcopy($v)", "copy($v)", "deepcopy($v)")
+
+
+def _value_copy_wrapper(value: ast.AST) -> Optional[str]:
+    """'deepcopy' / 'copy' when the stored value is passed through copy.copy / copy.deepcopy"""
+    for p in COPY_WRAPPERS:
+        if match(p, value):
+            return 'deepcopy' if 'deepcopy' in p else 'copy'
+    return None
+
+
 def _reads_attr(value: ast.AST, src_expr: ast.AST, key: str, val_name: Optional[str]) -> bool:
-    for p in ("copy.copy($v)", "copy.deepcopy($v)", "copy($v)", "deepcopy($v)"):
+    for p in COPY_WRAPPERS:
         m = match(p, value)
         if m:
             value = m['v']
@@ -700,6 +711,43 @@ def _rename(atom: ast.AST, old: str, new: str) -> ast.AST:
     return subst(atom, {old: ast.Name(id=new, ctx=ast.Load())}) if old != new else atom
 
 
+def _pairs_source(it: ast.AST, target: ast.AST):
+    """`((k, V) for k in X.__dict__[.keys()] if C)` (generator or list) consumed by `for name, value in ...`
+    -> (X, [(filter atom over `name`, True)], V with k renamed to `name`) or None"""
+    it, _ = strip_seq_wrappers(it)
+    if not (isinstance(it, (ast.GeneratorExp, ast.ListComp)) and len(it.generators) == 1 and isinstance(it.elt, ast.Tuple)
+            and len(it.elt.elts) == 2 and isinstance(target, ast.Tuple) and len(target.elts) == 2
+            and all(isinstance(x, ast.Name) for x in target.elts)):
+        return None
+    g = it.generators[0]
+    ds = _dict_source(g.iter)
+    if ds is None:
+        return None
+    name = target.elts[0].id
+    if ds[1] == 'keys' and isinstance(g.target, ast.Name):
+        k, v0 = g.target.id, None
+    elif ds[1] == 'items' and isinstance(g.target, ast.Tuple) and len(g.target.elts) == 2 and \
+            all(isinstance(x, ast.Name) for x in g.target.elts):
+        k, v0 = g.target.elts[0].id, g.target.elts[1].id
+    else:
+        return None
+    if not (isinstance(it.elt.elts[0], ast.Name) and it.elt.elts[0].id == k):
+        return None
+    value = it.elt.elts[1]
+    if v0 is not None:
+        from sa.flow import subst
+        value = subst(value, {v0: ast.Call(func=ast.Name(id='getattr', ctx=ast.Load()),
+                                           args=[ds[0], ast.Name(id=k, ctx=ast.Load())], keywords=[])})
+    atoms = []
+    for c in g.ifs:
+        if v0 is not None:
+            from sa.flow import subst
+            c = subst(c, {v0: ast.Call(func=ast.Name(id='getattr', ctx=ast.Load()), args=[ds[0], ast.Name(id=k, ctx=ast.Load())],
+                                       keywords=[])})
+        atoms += [(_rename(a, k, name), p) for a, p in facts.split_conj(c, True)]
+    return ds[0], atoms, _rename(value, k, name)
+
+
 def _direct_copy_loops(ctx, f: Func) -> List[CopyLoop]:
     """every dynamic attribute store `D.<k> = ...` inside a loop whose variable k ranges over the attribute names of X"""
     cfg = cfg_of(f)
@@ -709,8 +757,16 @@ def _direct_copy_loops(ctx, f: Func) -> List[CopyLoop]:
         if not isinstance(fo, ast.For):
             continue
         hn = cfg.node_of(fo)
-        ds = _dict_source(ex.expand(fo.iter, hn))
+        it_x = ex.expand(fo.iter, hn)
+        ds = _dict_source(it_x)
         helper_atoms = []
+        pair_value = None
+        if ds is None:
+            pr = _pairs_source(it_x, fo.target)
+            if pr is not None:
+                # for name, value in ((k, <V(k)>) for k in X.__dict__ if <filters>): the loop of a (name, value) pair stream
+                ds = (pr[0], 'items')
+                helper_atoms, pair_value = pr[1], pr[2]
         if ds is None:
             nh = _names_helper(ctx, f, fo.iter)
             if nh is None or not isinstance(fo.target, ast.Name):
@@ -746,9 +802,14 @@ def _direct_copy_loops(ctx, f: Func) -> List[CopyLoop]:
                 hdr_ids = {(id(t), p) for t, p in header}
                 stop = {key, val_name or key} | {x.id for x in ast.walk(dst) if isinstance(x, ast.Name)}
                 value = ex.expand(value, cn, stop=stop)
+                vn = val_name
+                if pair_value is not None:
+                    from sa.flow import subst
+                    value = subst(value, {val_name: pair_value})        # what the pair stream delivers as the value
+                    vn = None
                 for t, pol in [c for c in cfg.conditions(cn) if (id(c[0]), c[1]) not in hdr_ids]:
                     atoms += facts.split_conj(ex.expand(t, cfg.node_containing(t), stop=stop), pol)
-                out.append(CopyLoop(fo, n, src_expr, dst, key, val_name, value, atoms, header))
+                out.append(CopyLoop(fo, n, src_expr, dst, key, vn, value, atoms, header))
     return out
 
 
@@ -795,6 +856,14 @@ def report_copy_loop(o, f: Func, cl: CopyLoop, what: str) -> bool:
     if not _reads_attr(cl.value, cl.src, cl.key, cl.val_name):
         o.undecided(f, cl.call, cl.call, f"the {what} copy loop stores `{src(cl.value)}`, not the source's value of the same attribute")
         ok = False
+    elif _value_copy_wrapper(cl.value):
+        w = _value_copy_wrapper(cl.value)
+        o.refute(f, cl.call, cl.value, f"the {what} copy loop stores `{src(cl.value)[:70]}`: a {w}() of the attribute value, not the value "
+                                       f"itself. The copy must carry the SAME attribute values: values compared by identity (resource "
+                                       f"objects, references to other tasks) differ on the copy" +
+                                       ("; a Task-valued attribute makes deepcopy duplicate that task's whole graph and owner"
+                                        if w == 'deepcopy' else "; a shallow copy of a Task shares its relation lists"))
+        ok = False
     public = False
     for atom, pol in cl.atoms:
         c, text = classify_copy_filter(cl, atom, pol)
@@ -806,6 +875,7 @@ def report_copy_loop(o, f: Func, cl: CopyLoop, what: str) -> bool:
         else:
             o.refute(f, cl.call, atom, f"{what} copy loop: {text}; the only filter allowed is `not k.startswith('_')`")
             ok = False
+    cl.covers = public and not cl.header_conds and all(classify_copy_filter(cl, a, p)[0] == 'public' for a, p in cl.atoms)
     if not public and ok:
         o.refute(f, cl.call, cl.call, f"{what} copy loop has no `not k.startswith('_')` filter: private state (relations, owner, "
                                       f"root sentinel) is copied by reference, so the copy shares it with the source")
@@ -853,6 +923,13 @@ class CloneShape:
         self.kind, self.node, self.cvar, self.pure, self.impure = kind, node, cvar, pure, impure
 
 
+def _is_attr_read(e: ast.AST, sn: str) -> bool:
+    """e reads ONE attribute of self: self.x | self.__getattribute__(k) | getattr(self, k) | self.__dict__[k] | vars(self)[k]"""
+    return bool(match(f"{sn}.__getattribute__($k)", e) or match(f"getattr({sn}, $k)", e) or match(f"{sn}.__dict__[$k]", e)
+                or match(f"vars({sn})[$k]", e) or (isinstance(e, ast.Attribute) and isinstance(e.value, ast.Name) and e.value.id == sn
+                                                  and e.attr != '__dict__'))
+
+
 def task_clone_shape(ctx) -> CloneShape:
     prog = ctx.prog
     cl = prog.func('task.Task.clone')
@@ -860,8 +937,13 @@ def task_clone_shape(ctx) -> CloneShape:
     ctors = [n for n in walk_no_nested(cl.node) if isinstance(n, ast.Call) and isinstance(n.func, ast.Name) and n.func.id == 'Task']
     shallow = [n for n in walk_no_nested(cl.node) if isinstance(n, ast.Call) and
                (match(f"copy.copy({sn})", n) or match(f"copy({sn})", n) and 'copy' in cl.module.imports)]
-    other = [n for n in walk_no_nested(cl.node) if isinstance(n, ast.Call) and
-             getattr(n.func, 'attr', getattr(n.func, 'id', '')) in ('deepcopy', '__new__', '__reduce_ex__', '__class__')]
+    def _whole_object(n):
+        nm = getattr(n.func, 'attr', getattr(n.func, 'id', ''))
+        if nm == 'deepcopy':                 # deepcopy(self) builds the clone; deepcopy(<attribute value>) is judged by the copy loop
+            return not n.args or any(isinstance(x, ast.Name) and x.id == sn for a in n.args[:1] for x in ast.walk(a)
+                                     if not _is_attr_read(a, sn))
+        return nm in ('__new__', '__reduce_ex__', '__class__')
+    other = [n for n in walk_no_nested(cl.node) if isinstance(n, ast.Call) and _whole_object(n)]
     made = ctors + shallow
     if len(made) != 1 or other:
         return CloneShape(None, made[0] if made else None, None, None, [])
@@ -1104,6 +1186,8 @@ def _fields(ctx, o):
             o.site(cl, ctor, f"{attr}: constructor argument {feed}={src(arg)}")
         elif loop_ok:
             o.site(loops[0].func, loops[0].for_node, f"{attr}: public instance attribute, covered by the generic loop")
+        elif any(getattr(l, 'covers', False) for l in loops):
+            pass            # the loop reaches every public name; what is wrong with it (the stored value) is already reported
         elif loops:
             o.refute(cl, ctor, attr, f"public field `{attr}` of Task.__init__ is neither passed to the constructor in Task.clone nor "
                                      f"copied by an unfiltered loop over the public attributes: the copy keeps the constructor default")
@@ -1114,6 +1198,11 @@ def _fields(ctx, o):
     ws = eff.writes_star(cl)
     if ws:
         for key in sorted(ws):
+            if key[1] == 'unknown':
+                o.undecided(cl, cl.node, f"writes {unmangle(key[0])}", f"Task.clone reaches a write of {unmangle(key[0])} through an object the "
+                                                                       f"effect analysis cannot trace back to the copy or the source "
+                                                                       f"({' -> '.join(eff.explain(cl, key))[:160]})")
+                continue
             o.refute(cl, cl.node, f"writes {unmangle(key[0])}", f"Task.clone modifies {unmangle(key[0])} of `{key[1]}` "
                                                                 f"({' -> '.join(eff.explain(cl, key))[:160]}): cloning must leave the source unchanged")
     else:
@@ -1223,6 +1312,7 @@ class CloneAnalysis:
         # ---- map variable of __clone_tasks = the returned name
         self.mapvar = None
         self.gmap = self.gcall = None
+        self.ret_roots = False
         gp = self.g.params
         if self.merged:
             self.mapvar = self.gmap = _map_local(self.g)
@@ -1230,15 +1320,26 @@ class CloneAnalysis:
         else:
             rets = [n for n in walk_no_nested(self.f.node) if isinstance(n, ast.Return)]
             names = {r.value.id for r in rets if isinstance(r.value, ast.Name)}
-            if rets and len(names) == 1 and all(isinstance(r.value, ast.Name) for r in rets):
+            ml = _map_local(self.f)
+            if rets and len(names) == 1 and all(isinstance(r.value, ast.Name) for r in rets) and (ml is None or ml in names):
                 self.mapvar = names.pop()
+            elif rets and ml is not None:
+                # __clone_tasks keeps the clone map to itself and returns an expression over it (the roots of the copy)
+                self.mapvar = ml
+                self.ret_roots = True
             fp = self.f.params
             self.L = Labeller(ctx, self.f, self.mapvar, {fp[1]: Lab('SRCS', {'ROOTS'})} if len(fp) > 1 else {})
             # ---- map variable of __clone = the name assigned from self.__clone_tasks(..)
             for d in flow_of(self.g).defs:
                 if d.kind == 'assign' and d.value is not None and match("self._WBS__clone_tasks($*a)", d.value):
                     self.gmap, self.gcall = d.var, d.value
-            self.G = Labeller(ctx, self.g, self.gmap, {gp[1]: Lab('SRCS', {'ROOTS'})} if len(gp) > 1 else {})
+            if self.gcall is None and self.ret_roots:
+                cs = facts.calls_named(self.g, '__clone_tasks')
+                if len(cs) == 1 and match("self._WBS__clone_tasks($*a)", cs[0]):
+                    self.gcall = cs[0]
+            self.G = Labeller(ctx, self.g, None if self.ret_roots else self.gmap,
+                              {gp[1]: Lab('SRCS', {'ROOTS'})} if len(gp) > 1 else {})
+            self.G.clone_tasks_returns = 'roots' if self.ret_roots else 'map'
         self.setdefaults: List[tuple] = []          # (function, labeller, call)
         self.helpers: List[tuple] = []              # (helper function, labeller) that receive the clone map
         for name in ('map', 'externals', 'relations', 'assembly', 'wbs_attrs', 'no_source_writes', 'once', 'fields'):
@@ -1986,7 +2087,7 @@ class CloneAnalysis:
                 self.undecided(g, g.node, '__clone', "__clone rebinds its roots parameter")
                 return
         else:
-            if self.gmap is None or self.gcall is None:
+            if (self.gmap is None and not self.ret_roots) or self.gcall is None:
                 self.undecided(g, g.node, '__clone', "__clone does not bind the result of self.__clone_tasks(..) to a local name")
                 return
             a = self.gcall.args
@@ -2021,53 +2122,69 @@ class CloneAnalysis:
                 self.undecided(g, st, st, "roots of the new WBS are attached only under a condition")
                 continue
             rhs = G.expand_acc(st.value, cn)
+            g2, G2, st2, cn2, rp2, val2 = g, G, st, cn, roots_p, st.value
+            inner0, bad0 = strip_seq_wrappers(rhs)
+            if self.ret_roots and match("self._WBS__clone_tasks($a)", inner0):
+                if bad0:
+                    self.refute(g, st, st.value, f"the roots of the copy are passed through {'/'.join(bad0)}(): root order of the source is lost")
+                    continue
+                # __clone_tasks itself returns the roots of the copy: judge its return expression, in its own terms
+                fr = [n for n in walk_no_nested(self.f.node) if isinstance(n, ast.Return)]
+                rn = self.L.cfg.node_of(fr[0]) if len(fr) == 1 else None
+                if rn is None or fr[0].value is None or self.L.cfg.conditions(rn) or len(self.f.params) < 2 or \
+                        len(self.L.flow.defs_of(self.f.params[1])) != 1:
+                    self.undecided(self.f, self.f.node, 'return', "__clone_tasks hands back the roots of the copy through more than one / a "
+                                                                  "conditional return, or rebinds its roots parameter")
+                    continue
+                g2, G2, st2, cn2, rp2, val2 = self.f, self.L, fr[0], rn, self.f.params[1], fr[0].value
+                rhs = G2.expand_acc(val2, cn2)
             comp, bad = strip_seq_wrappers(rhs)
             if bad:
-                self.refute(g, st, st.value, f"the roots of the copy are passed through {'/'.join(bad)}(): root order of the source is lost")
+                self.refute(g2, st2, val2, f"the roots of the copy are passed through {'/'.join(bad)}(): root order of the source is lost")
                 continue
             if not isinstance(comp, (ast.ListComp, ast.GeneratorExp)) or len(comp.generators) != 1:
-                el = G.lab(rhs, cn, {})
+                el = G2.lab(rhs, cn2, {})
                 if el.kind in SOURCEISH:
-                    self.refute(g, st, st.value, f"the new WBS receives `{src(rhs)[:60]}`: tasks of the source WBS, not their copies "
+                    self.refute(g2, st2, val2, f"the new WBS receives `{src(rhs)[:60]}`: tasks of the source WBS, not their copies "
                                                  f"(the source loses them)")
                 else:
-                    self.undecided(g, st, st.value, "roots of the new WBS are not a single comprehension over the given roots")
+                    self.undecided(g2, st2, val2, "roots of the new WBS are not a single comprehension over the given roots")
                 continue
             gen = comp.generators[0]
             it, bad = strip_seq_wrappers(gen.iter)
             if bad:
-                self.refute(g, st, gen.iter, f"the roots of the copy are taken from {'/'.join(bad)}(roots): root order of the source is lost")
+                self.refute(g2, st2, gen.iter, f"the roots of the copy are taken from {'/'.join(bad)}(roots): root order of the source is lost")
                 continue
             mt = match("_to_list($r)", it)
             if mt:                                       # __clone normalises its parameter first: roots = _to_list(roots)
                 it = strip_seq_wrappers(mt['r'])[0]
-            if not (isinstance(it, ast.Name) and it.id == roots_p):
-                il = G.lab(it, cn, {})
+            if not (isinstance(it, ast.Name) and it.id == rp2):
+                il = G2.lab(it, cn2, {})
                 if il.kind in ('MAPPEDS', 'MAP'):
-                    self.refute(g, st, st.value, f"the roots of the copy are taken from the entries of the clone map (`{G.short(it)[:50]}`), "
+                    self.refute(g2, st2, val2, f"the roots of the copy are taken from the entries of the clone map (`{G2.short(it)[:50]}`), "
                                                  f"not from the given roots: the map also holds tasks OUTSIDE the source WBS as themselves, "
                                                  f"so a parentless outside task is moved into the copy (and root order is that of the map)")
                 elif il.kind in ('SRCS', 'MEMBERS', 'LINKS'):
-                    self.refute(g, st, st.value, f"the roots of the copy range over `{G.short(it)[:50]}`, not over exactly the roots handed "
+                    self.refute(g2, st2, val2, f"the roots of the copy range over `{G2.short(it)[:50]}`, not over exactly the roots handed "
                                                  f"to __clone_tasks")
                 else:
-                    self.undecided(g, st, gen.iter, "the roots of the copy do not range over the roots handed to __clone_tasks")
+                    self.undecided(g2, st2, gen.iter, "the roots of the copy do not range over the roots handed to __clone_tasks")
                 continue
             if gen.ifs:
-                self.refute(g, st, st.value, "the roots of the copy are filtered: some of the given roots are cloned but never attached")
+                self.refute(g2, st2, val2, "the roots of the copy are filtered: some of the given roots are cloned but never attached")
                 continue
             env = {}
-            G.bind(gen.target, Lab('SRCS', {'ROOTS'}), env)
-            el = G.lab(comp.elt, cn, env)
+            G2.bind(gen.target, Lab('SRCS', {'ROOTS'}), env)
+            el = G2.lab(comp.elt, cn2, env)
             if el.kind == 'CLONE' and isinstance(gen.target, ast.Name) and el.origin == gen.target.id:
-                self.site(g, st, "WBS().roots = [map[r.id] for r in roots]")
+                self.site(g2, st2, "WBS().roots = [map[r.id] for r in roots]")
             elif el.kind in SOURCEISH:
-                self.refute(g, st, comp.elt, "the new WBS receives the source's root tasks themselves, not their copies: the source "
+                self.refute(g2, st2, comp.elt, "the new WBS receives the source's root tasks themselves, not their copies: the source "
                                              "WBS loses its roots")
             elif el.kind == 'NEWCLONE':
-                self.refute(g, st, comp.elt, "the new WBS receives additional fresh clones (without relations), not the clone-map entries")
+                self.refute(g2, st2, comp.elt, "the new WBS receives additional fresh clones (without relations), not the clone-map entries")
             else:
-                self.undecided(g, st, comp.elt, "element of the new roots is not `map[r.id]`")
+                self.undecided(g2, st2, comp.elt, "element of the new roots is not `map[r.id]`")
                 continue
             recv = G.expand(tgt.value, cn)
             for r in rets:
